@@ -401,7 +401,7 @@ class MailboxData(MailboxDataInterface[Message]):
 
     async def claim_recent(self, selected: SelectedMailbox) -> None:
         async with self.messages_lock.write_lock():
-            keys = self._maildir.claim_new()
+            keys = set(self._maildir.claim_new())
         async with UidList.with_read(self._path) as uidl:
             for rec in uidl.records:
                 if rec.key in keys:
